@@ -461,3 +461,13 @@ Proof.
   split; [intros m args p [<-|[]]; vm_compute; discriminate|].
   vm_compute. repeat split.
 Qed.
+
+(** FProtocol's refusal of a container that announces more elements than bytes remain changes no
+    outcome under the binary protocol: the bare reader fails on every such input too (each element
+    takes at least one byte) -- after having allocated room for the announced size *)
+Theorem c05_size_guard_changes_no_outcome_binary : forall e fuel n b,
+  (2 * length b + 3 <= fuel)%nat -> zlen b < n ->
+  (forall et, is_ok (wdec_seq fuel e et n b) = false) /\
+  (forall kt vt, is_ok (wdec_pairs fuel e kt vt n b) = false).
+Proof. exact size_guard_changes_no_outcome_bin. Qed.
+Print Assumptions c05_size_guard_changes_no_outcome_binary.
